@@ -1,6 +1,6 @@
 import CacheVerif.Proofs.CacheLedger
 import CacheVerif.Proofs.TableRefine
-import CacheVerif.Proofs.ProtoData
+import CacheVerif.Proofs.ProtoLin
 /-!
 # C08 — Size / Count is exact whenever no modification is in flight (sequential part)
 
@@ -94,21 +94,58 @@ example :
 
 /-! ### concurrent histories (M4a): the striped counter, per table generation -/
 section conc
-open Model.Proto Proofs.ProtoData
+open Model.Proto Proofs.ProtoData Proofs.ProtoLin
 variable {K V : Type} [DecidableEq K] (p : Params K)
 
 /-- **counter invariant**, every reachable state, every table generation (also the one under construction): the
-counter plus the deltas of the writers that have committed but not yet called `addSize` is the number of entries -/
-theorem C08_counter (hmin : 0 < p.minLen) (s : Model.Proto.St K V) (h : Reach p s) (T : Nat) (hT : T < s.g.ntables)
+sum of the counter stripes (`total`: the value an *atomic* sum would give) plus the deltas of the writers that have
+committed but not yet called `addSize` is the number of entries.  `hst`: every table has at least one stripe. -/
+theorem C08_counter (hmin : 0 < p.minLen) (hst : ∀ n, 0 < p.stripes n) (s : Model.Proto.St K V) (h : Reach p s)
+    (T : Nat) (hT : T < s.g.ntables)
     (N : Nat) (hN : ∀ u : Nat, u ≥ N → (s.l u).pc = .idle) :
-    (s.g.tables T).size + pendSum s T N = ((s.g.tables T).data.length : Int) :=
-  counter_invariant p hmin s h T hT N hN
+    (s.g.tables T).total (p.stripes (s.g.tables T).len) + pendSum s T N = ((s.g.tables T).data.length : Int) :=
+  counter_invariant p hmin hst s h T hT N hN
 
-/-- **Size is exact whenever no call is in flight**, whatever history of concurrent inserts, deletes, grows, shrinks
-and clears preceded -/
-theorem C08_quiescent (hmin : 0 < p.minLen) (s : Model.Proto.St K V) (h : Reach p s)
-    (hq : ∀ u, (s.l u).pc = .idle) : (s.g.tables s.g.cur).size = ((s.g.tables s.g.cur).data.length : Int) :=
-  size_exact_when_quiescent p hmin s h hq
+/-- **the counter is exact whenever no call is in flight**, whatever history of concurrent inserts, deletes, grows,
+shrinks and clears preceded -/
+theorem C08_quiescent (hmin : 0 < p.minLen) (hst : ∀ n, 0 < p.stripes n) (s : Model.Proto.St K V) (h : Reach p s)
+    (hq : ∀ u, (s.l u).pc = .idle) :
+    (s.g.tables s.g.cur).total (p.stripes (s.g.tables s.g.cur).len) = ((s.g.tables s.g.cur).data.length : Int) :=
+  size_exact_when_quiescent p hmin hst s h hq
+
+/-- **the `Size()` call itself is exact when no modifying call overlaps it**, although it sums the stripes one atomic
+load at a time: thread `t` starts `Size` in the reachable state `s0`, in which no writer is between its commit and its
+`addSize` on the current table; during `mid` it stays in that call (`NoRet`) and the other threads only take read-only
+steps (`roPc`: start a call, `Load`, lock-free fast path, `Size`, return); when it is about to return, it returns the
+number of entries of the table -/
+theorem C08_size_call_exact (hmin : 0 < p.minLen) (hst : ∀ n, 0 < p.stripes n) (s0 s' : Model.Proto.St K V)
+    (h : Reach p s0) (t : Tid) (hpc : (s0.l t).pc = .szTable)
+    (hq : ∀ u, pendingOn (s0.l u) s0.g.cur = false)
+    (mid : List (Tid × Choice K V)) (hr : run p s0 mid = some s')
+    (hn : NoRet t (events p s0 mid))
+    (hro : ∀ e ∈ events p s0 mid, e.tid ≠ t → roPc (e.pre.l e.tid).pc = true)
+    (hret : (s'.l t).pc = .ret) :
+    (s'.l t).result = some (.size ((s0.g.tables s0.g.cur).data.length)) :=
+  size_call_exact p hmin hst s0 s' h t hpc hq mid hr hn hro hret
+
+/-- non-vacuity of `C08_size_call_exact`: on a map with 8 stripes holding one entry, a `Size` call of thread 1
+interleaved with a `Load` of thread 0 takes 1 + 8 steps from `szTable` and returns 1 -/
+def exP : Params Nat :=
+  { growThr := fun n => n * 9 / 4, shrinkThr := fun n => n * 3 / 128, bkt := fun _ k => k, minLen := 2, growOnly := false,
+    stripes := fun _ => 8 }
+
+def exPre : List (Tid × Choice Nat Nat) :=
+  (0, { op := some (.dc 1 (fun _ => (5, false)) false false) }) ::
+    List.append (List.replicate 11 (0, {})) [(1, { op := some .size })]
+
+def exMid : List (Tid × Choice Nat Nat) :=
+  List.append [(1, {}), (0, { op := some (.load 1) }), (1, {}), (0, {}), (1, {}), (0, {})] (List.replicate 6 (1, {}))
+
+example : ∃ (s0 s' : Model.Proto.St Nat Nat),
+    run exP (init exP) exPre = some s0 ∧ run exP s0 exMid = some s' ∧
+    (s0.l 1).pc = .szTable ∧ (s0.l 0).pc = .idle ∧ (s'.l 1).pc = .ret ∧ (s'.l 1).result = some (.size 1) ∧
+    (s'.l 0).result = some (.val (some 5) true) :=
+  ⟨_, _, rfl, rfl, rfl, rfl, rfl, rfl, rfl⟩
 
 end conc
 
